@@ -6,7 +6,7 @@ import numpy as np
 from harness import common as C
 from harness import zoo as Z
 
-ANCHORS = ["T7hist", "T7mic", "T7inplace", "T5flag", "T7chain"]
+ANCHORS = ["T7hist", "T7mic", "T7inplace", "T5flag", "T7chain", "T9text"]
 MODELS = ["Mic", "MicCase", "FlagCase"]
 RULE = ("random operation histories over {fit(D_i), transform(D_j), inverse_transform, components, scores, metrics, compute, serialize, "
         "rotator.fit(model), bootstrapper.fit(model)} applied to one model object (length <= 12 quick, <= 40 thorough), data sets of equal and "
